@@ -103,4 +103,27 @@ theorem C17_main_blocks :
      && Gen.tmpl_main_code_block == [[pn '*', tk "other", pn '=', .h "action", pn ';']]
      && Gen.tmpl_main_code_block_ok == [[pn '*', tk "other", pn '=', .h "action", pn ';'], [tk "Ok", .g .paren [.h "inner"]]]) = true := by decide
 
+/-- in a body assembled on a default value (a parameterless `#[parent]` member present) a type-level ghost is a
+    statement `obj.<member> = <value>;` — it ends with `;` and begins with `obj .`, it is never a `name: value,`
+    initialiser fragment (fix for the pinned tree: the fragment form made the body unparsable) -/
+theorem C17_ghost_line_is_statement (g : GhostData) (ctx : ImplContext) (ts : TS)
+    (hk : ctx.kind.cls = .into) (hp : ctx.hasPostInit = true) (h : renderGhostLine g ctx = .ok ts) :
+    ∃ mid, ts = Tok.ident "obj" :: dot :: (mid ++ [semi]) := by
+  unfold renderGhostLine at h
+  cases hg : g.ghostIdent.getIdent with
+  | error e => simp [hg, bind, Except.bind] at h
+  | ok m =>
+    cases m <;> simp [hg, hk, hp, bind, Except.bind, pure, Except.pure] at h <;> subst h
+    · rename_i nm
+      exact ⟨(match g.childPath with | some c => memberPathTS c.path ++ [dot] | none => []) ++ Tok.ident nm :: eq :: quoteAction g.action none ctx,
+        by simp [i, List.append_assoc]; cases g.childPath <;> rfl⟩
+    · rename_i n
+      exact ⟨(match g.childPath with | some c => memberPathTS c.path ++ [dot] | none => []) ++ ((Member.unnamed n).toTS ++ eq :: quoteAction g.action none ctx),
+        by simp [i, List.append_assoc]; cases g.childPath <;> rfl⟩
+
+/-- non-vacuity: a named type-level ghost in such a body -/
+example : renderGhostLine { ghostIdent := .member (.named "g"), action := [Tok.lit "7"], childPath := none }
+    { (default : ImplContext) with kind := .ownedInto, hasPostInit := true }
+    = .ok [Tok.ident "obj", dot, Tok.ident "g", eq, Tok.lit "7", semi] := by rfl
+
 end O2o
